@@ -12,7 +12,7 @@
 // std::vector specification; capacity >= size; data_end == data+size; the engine's memory checks decide "no access
 // outside the allocation / no double free" and `leak=1` decides "no leak" after the vector has been destroyed.
 // Every post-state is again a representation of the pre-state family, so invariant + step cover histories of any length
-// within the capacity bound (cap <= 4 quick, <= 6 thorough; inserted counts <= 3).  h_hist2 additionally runs two-step
+// within the capacity bound (cap <= 4 quick, <= 6 thorough; inserted counts <= 3).  h_hist2 additionally runs 2..4-step
 // histories from the constructors through the public API only.
 //
 // Outside the claim: allocation failure / length_error (allocation never fails in the engine), element types other than
